@@ -46,6 +46,22 @@ add("C20", "fault_enumeration", "svmc-E1",
     "64-bit usize; for malformed input refusing more than necessary is allowed.",
     "DESIGN.md 4/C20")
 
+add("C04", "model_checking", "svmc-E2",
+    "bounded-exhaustive enumeration of maps x insertion orders x queries, plus DFS over all histories of map-producing operations on real maps",
+    "E1: every multiset of <=5/6 positions over an 8-point grid (incl. u32::MAX coordinates) in every insertion order through three constructions, runs of equal keys of every size (three blocks up to 9/12, single runs to 200), all queries of a neighbourhood grid, against a linear-scan greatest-lower-bound with first-of-equals. E2: every history of <=3/4 operations (rewrite x4, adjust_mappings x6, flatten x3, save+load) from 38 seed maps, ordering/get_token/lookup invariants evaluated in every reached state of the real objects.",
+    "First-of-equals is judged against the map's own iteration order; E2 seeds keep coordinates small (overflow at extremes belongs to C05).",
+    "DESIGN.md 4/C04")
+add("C07", "exploration", "svmc-E1",
+    "bounded-exhaustive enumeration of range-flag assignments x layouts x lookups, with an independent rangeMappings reader/writer",
+    "Every subset of range flags over every layout (1-4 lines incl. empty lines and gaps, 0..4/5 tokens per line), long lines of 17/18/33/40 tokens with every single flag position and boundary pairs, and maps with exact duplicate tokens; the written rangeMappings is read by an independent bit-field reader, flags are compared after to_writer+decode, and every lookup on a full grid (later lines, u32::MAX columns) is compared with the shift rule.",
+    "Original column + distance beyond u32::MAX is checked for crash-freedom only.",
+    "DESIGN.md 4/C07")
+add("C12", "model_checking", "svmc-E2",
+    "exhaustive exploration of read schedules on the real reader stack against the slice path and an independent header rule",
+    "For every header of length <=4/5 over an 8-byte alphabet x 6 bodies every composition of the first len(header)+3 bytes, for short streams every composition, and for canonical/irregular headers every uniform chunk size 1..16 and every choice of <=2 cuts anywhere is executed through decode(reader) and is_sourcemap(reader) and compared with decode_slice / is_sourcemap_slice and with an independent reading of the junk-header rule; data URLs against their payload.",
+    "I/O errors from the underlying reader are outside the chunking alphabet; reads never return 0 before EOF.",
+    "DESIGN.md 4/C12")
+
 NOT_YET = {}
 
 def main():
